@@ -15,6 +15,15 @@ import (
 )
 
 func runCase(c isish.Case, out *isish.Outcome) {
+	if c.Kind == "ownrace" {
+		var oc isish.OwnRaceCase
+		if err := json.Unmarshal(c.Raw, &oc); err != nil {
+			out.Inconclusive = "bad case: " + err.Error()
+			return
+		}
+		isish.RunOwnRace(oc, out)
+		return
+	}
 	var lc isish.LSDBCase
 	if err := json.Unmarshal(c.Raw, &lc); err != nil {
 		out.Inconclusive = "bad case: " + err.Error()
@@ -28,7 +37,7 @@ func main() {
 		isish.ChildMain(runCase)
 	}
 	vf.Main("C32", "exploration", func(r *vf.Run) {
-		r.Rule("PRNG histories of 40 steps against a server with three interfaces (eth0, eth1 with an Up neighbor each; eth2 with no or an Init neighbor): reception of an LSP (local LSP ID or one of 4 foreign IDs incl. a second fragment and a pseudonode, sequence number 0..5, remaining lifetime 0/1/2/300/1200) from either neighbor, reception of a CSNP (full or partial range, entries for a random subset of the IDs) or PSNP (1-3 entries), 1/2/10/300/1500 aging ticks, and LSP / PSNP / CSNP transmission rounds; plus bulk histories with 16/20/92/100 LSPs. After every step: (lsdb-seq, aging) the LSDB holds for every LSP ID the highest sequence number accepted so far with a lifetime that decreases by one per tick until it ages out; (flags-lsp, flags-csnp, flags-psnp, flags-frame) SRM/SSN flags on the circuits with an Up adjacency follow ISO 10589 7.3.15.1/7.3.15.2 (newer/same/older LSP; SNP entry same/older/newer/unknown; LSPs in a CSNP's range it does not list; nothing else changes); (send-lsp/psnp/csnp) what a transmission round puts on the wire is exactly what the flags / the LSDB call for, parsed with an independent codec; (own-refresh) the local LSP is present with lifetime > 0 after every tick once the regeneration the server requested has run; (own-seq) copies of the local LSP (sequence numbers 1..12, in any order, half of them arriving before the updater has run the regeneration the previous one triggered) : once the requested regeneration has run, and at every later regeneration, the local LSP's sequence number exceeds every copy received so far. distinct_nontrivial = histories containing at least 8 of the 9 step classes (newer, same, older LSP, CSNP, PSNP, tick, three kinds of transmission round)")
+		r.Rule("PRNG histories of 40 steps against a server with three interfaces (eth0, eth1 with an Up neighbor each; eth2 with no or an Init neighbor): reception of an LSP (local LSP ID or one of 4 foreign IDs incl. a second fragment and a pseudonode, sequence number 0..5, remaining lifetime 0/1/2/300/1200) from either neighbor, reception of a CSNP (full or partial range, entries for a random subset of the IDs) or PSNP (1-3 entries), 1/2/10/300/1500 aging ticks, and LSP / PSNP / CSNP transmission rounds; plus bulk histories with 16/20/92/100 LSPs. After every step: (lsdb-seq, aging) the LSDB holds for every LSP ID the highest sequence number accepted so far with a lifetime that decreases by one per tick until it ages out; (flags-lsp, flags-csnp, flags-psnp, flags-frame) SRM/SSN flags on the circuits with an Up adjacency follow ISO 10589 7.3.15.1/7.3.15.2 (newer/same/older LSP; SNP entry same/older/newer/unknown; LSPs in a CSNP's range it does not list; nothing else changes); (send-lsp/psnp/csnp) what a transmission round puts on the wire is exactly what the flags / the LSDB call for, parsed with an independent codec; (own-refresh) the local LSP is present with lifetime > 0 after every tick once the regeneration the server requested has run; (own-seq) copies of the local LSP (sequence numbers 1..12, in any order, half of them arriving before the updater has run the regeneration the previous one triggered) : once the requested regeneration has run, and at every later regeneration, the local LSP's sequence number exceeds every copy received so far. Copies received DURING a regeneration (150 histories of 3..8 rounds; thorough 3000; started server, real updater goroutine): a regeneration is requested by an event (a newer copy of the local LSP received while idle, or a neighbor's hello that stops listing us), and while the updater goroutine is building the new LSP (sequence number drawn, LSP not yet stored: the moment it asks for the hostname) 1..2 copies of the local LSP with sequence number own+1..own+7 are received through the interface's receive function; once no regeneration is pending the local LSP in the LSDB must exceed every copy received (own-seq, when=received-during-regeneration). distinct_nontrivial = histories containing at least 8 of the 9 step classes (newer, same, older LSP, CSNP, PSNP, tick, three kinds of transmission round)")
 		r.Assume("Server.Start is not called: aging, transmission and regeneration run synchronously through the verif hooks, serialised by the harness",
 			"LSPs with sequence number 0 or remaining lifetime 0 and SNP entries with such values are fed but only 'sequence numbers never decrease' is judged for them (the statement is silent about purges)",
 			"bio-rd's CSNP range test ignores the LSP number; LSPs just outside a partial range are not judged")
@@ -53,8 +62,19 @@ func main() {
 				cases = append(cases, isish.Case{Kind: "lsdb", Raw: isish.MustJSON(isish.GenLSDBBulk(b + k))})
 			}
 		}
+		nOwn := r.N(150, 3000)
+		for i := 0; i < nOwn; i++ {
+			oc := isish.GenOwnRaceCase(r.RandN("c32-ownrace", i))
+			cases = append(cases, isish.Case{Kind: "ownrace", Raw: isish.MustJSON(oc)})
+			if i < 1 {
+				r.Sample(oc)
+			}
+		}
 		outs := isish.RunBatch(cases, opts)
 		isish.Apply(r, cases, outs, nil)
+		r.Require("own_seq_checks_after_concurrent_copy", int64(nOwn*2))
+		r.Require("ownrace_rounds_adj-down-up", int64(nOwn))
+		r.Require("ownrace_rounds_own-copy", int64(nOwn))
 		r.Require("flag_checks", 10000)
 		r.Require("ticks", 10000)
 		r.Require("lsp_rounds", 1000)
